@@ -926,7 +926,11 @@ func (c *Conn) dispatch(fr *FrameHeader) bool {
 	// A canceled or finished request has taken its Response back, so there is
 	// nowhere to put this frame. Drop the stream and carry on.
 	if ok && !r.acquireFor(c, id) {
-		c.dequeueReq(id)
+		// Whoever takes the stream off the table counts it down: the cancel
+		// that may still be on its way finds it gone and does not.
+		if c.takeReq(id) {
+			atomic.AddInt32(&c.openStreams, -1)
+		}
 
 		ok = false
 	}
